@@ -75,3 +75,11 @@ _stub("C12", "Decides structural clauses of C12 on maximum_color's ninja graph a
              "reorders before grafting SVG, rejects missing names for CBDT. Does NOT decide table-by-table equality of the output font "
              "or rendering agreement between colour tables.",
       "binary equality of retained tables; rendering agreement between COLR/SVG/CBDT")
+
+_stub("C18", "Decides structural clauses of C18: each master's UFO edge is built from a config restricted to that master, that "
+             "master's glyphmap and config file, with sources redirected to the build's picosvgs, one edge per master, and the "
+             "variable-font edge depends on every UFO; in the designspace assembly the UFO, style name, source name and location of a "
+             "source all derive from the same loop binder, location keys go through axisTag -> name, axis minimum/maximum aggregate "
+             "positions filtered on the same tag, default comes from the axis; validation rejects bitmap / OT-SVG multi-master configs "
+             "and a missing default master. Does NOT decide interpolation, gvar/HVAR/VarStore content or variable clip boxes (ufo2ft).",
+      "interpolation and all variation data (ufo2ft/fontTools.varLib)")
